@@ -63,6 +63,7 @@ func (f *frame) doCallVals(c *ssa.CallCommon, args []Val, st *State, pos token.P
 		fv := f.val(c.Value)
 		f.safety("nilcall", st, fmt.Sprintf("(not (= %s 0))", fv.T), pos, "call of nil function value")
 	}
+	f.beforeCall(key, st, pos)
 	con := g.W.db.Contracts[key]
 	if con != nil && !con.Inline {
 		return f.applyContract(con, key, args, rt, st, pos, ci)
@@ -82,6 +83,37 @@ func (f *frame) doCallVals(c *ssa.CallCommon, args []Val, st *State, pos token.P
 		f.havocReachable(a, st)
 	}
 	return res
+}
+
+// beforeCall: call-site assertions of the enclosing function's contract, keyed by callee.
+func (f *frame) beforeCall(key string, st *State, pos token.Pos) {
+	g := f.g
+	var con *Contract
+	if f.top {
+		con = f.con
+	} else {
+		con = g.W.db.Contracts[g.W.relName(f.fn)]
+	}
+	if con == nil || len(con.Before[key]) == 0 {
+		return
+	}
+	if f.beforeCtr == nil {
+		f.beforeCtr = map[string]int{}
+	}
+	f.beforeCtr[key]++
+	env := &Env{g: g, vars: map[string]Val{}, heap: st.heap, old: f.entry}
+	f.bindParams(env)
+	env.lookup = f.localsAt(f.curBlock)
+	for i, cl := range con.Before[key] {
+		t, err := g.trBool(cl.E, env)
+		name := f.oblName(fmt.Sprintf("before:%s#%d:%s", shortName(key), f.beforeCtr[key], clauseLabel(cl, i)))
+		if err != nil {
+			g.errorf("%s: %v", name, err)
+			t = "false"
+		}
+		g.addObl("call-pre", name, f.clauseProps(cl), st.reach, t, nil, cl.Src, pos)
+		g.assumeUnder(st.reach, t)
+	}
 }
 
 func lastSeg(s string) string {
@@ -121,6 +153,7 @@ func (f *frame) havocReachable(a Val, st *State) {
 		ar := g.arr(st.heap, an, es)
 		nv := g.fresh("hvarr")
 		g.declare(nv, es)
+		g.noteWrite(an, "(s-arr "+a.T+")")
 		g.assignArr(st.heap, an, es, fmt.Sprintf("(store %s (s-arr %s) %s)", ar, a.T, nv))
 	case *types.Pointer:
 		if a.Loc != nil && !a.Loc.Struct && a.Loc.Global == nil && strings.HasPrefix(a.Loc.Arr, "C!") {
@@ -141,7 +174,7 @@ func (f *frame) inline(fn *ssa.Function, ci *closureInfo, args []Val, st *State,
 	f.callCtr[name]++
 	sub := &frame{g: g, fn: fn, inst: g.instCtr, regs: map[ssa.Value]Val{}, depth: f.depth + 1, params: args,
 		path: fmt.Sprintf("%s%s#%d>", f.path, shortName(name), f.callCtr[name]), props: f.props, callCtr: map[string]int{},
-		stack: append(append([]*ssa.Function{}, f.stack...), f.fn), closure: f.closure, fnField: f.fnField, deferBase: len(st.defers)}
+		stack: append(append([]*ssa.Function{}, f.stack...), f.fn), closure: f.closure, fnField: f.fnField, deferBase: len(st.defers), topEntry: f.entry0()}
 	if ci != nil {
 		sub.freeVars = ci.bindings
 	}
@@ -206,6 +239,21 @@ func (g *Gen) resolveMods(con *Contract, env *Env) []modLoc {
 					panic(r)
 				}
 			}()
+			if strings.HasSuffix(m, "[**]") {
+				// the whole backing array of a slice (append may write into spare capacity)
+				e, err := parseExpr(strings.TrimSuffix(m, "[**]"))
+				if err != nil {
+					trFail("%v", err)
+				}
+				v := g.tr(stripParens(e), env)
+				u, ok := v.Ty.Underlying().(*types.Slice)
+				if !ok {
+					trFail("[**] on %s", v.Ty)
+				}
+				s := sortOf(u.Elem())
+				out = append(out, modLoc{arr: elemArrName(s), sort: "(Array Int " + s + ")", idx: "(s-arr " + v.T + ")", src: src})
+				return
+			}
 			if strings.HasSuffix(m, "[*]") {
 				e, err := parseExpr(strings.TrimSuffix(m, "[*]"))
 				if err != nil {
@@ -320,6 +368,14 @@ func (f *frame) applyContract(con *Contract, key string, args []Val, rt *types.T
 	for _, m := range mods {
 		switch {
 		case m.all && m.slice != nil:
+			g.noteWrite(m.arr, "(s-arr "+m.slice.T+")")
+		case m.idx == "":
+			g.dirty[m.arr] = true
+		default:
+			g.noteWrite(m.arr, m.idx)
+		}
+		switch {
+		case m.all && m.slice != nil:
 			es := m.sort
 			a := g.arr(st.heap, m.arr, es)
 			na := g.fresh("modarr")
@@ -368,21 +424,47 @@ func (f *frame) applyContract(con *Contract, key string, args []Val, rt *types.T
 		post.vars["result"] = res
 	}
 	// fresh results
-	for _, fr := range con.Fresh {
+	for _, frs := range con.Fresh {
+		fr, condSrc := frs, ""
+		if i := strings.Index(frs, " if "); i >= 0 {
+			fr, condSrc = strings.TrimSpace(frs[:i]), frs[i+4:]
+		}
 		v, ok := post.vars[fr]
 		if !ok {
 			g.errorf("contract %s: fresh %s: no such result", con.Name, fr)
 			continue
 		}
+		guard := st.reach
+		fcond := "true"
+		if condSrc != "" {
+			ce, err := parseExpr(condSrc)
+			if err != nil {
+				g.errorf("contract %s: fresh %s: %v", con.Name, frs, err)
+				continue
+			}
+			post.heap = st.heap
+			ct, err := g.trBool(stripParens(ce), post)
+			if err != nil {
+				g.errorf("contract %s: fresh %s: %v", con.Name, frs, err)
+				continue
+			}
+			guard = and(st.reach, ct)
+			fcond = ct
+		}
 		ref := v.T
 		if sortOf(v.Ty) == "Iface" {
 			ref = "(i-val " + v.T + ")"
+		} else if sortOf(v.Ty) == "Slice" {
+			ref = "(s-arr " + v.T + ")"
 		}
 		al := g.arr(st.heap, "alloc", "Bool")
-		g.assumeUnder(st.reach, fmt.Sprintf("(and (> %s 0) (not (select %s %s)))", ref, al, ref))
+		g.assumeUnder(guard, fmt.Sprintf("(and (> %s 0) (not (select %s %s)))", ref, al, ref))
 		g.assignArr(st.heap, "alloc", "Bool", fmt.Sprintf("(store %s %s true)", al, ref))
+		g.markFresh(ref)
+		g.markFresh(v.T)
+		tn := ""
 		if stt, bt := g.structOf(v.Ty); stt != nil {
-			tn := g.W.typeName(bt)
+			tn = g.W.typeName(bt)
 			for i := 0; i < stt.NumFields(); i++ {
 				fl := stt.Field(i)
 				if _, isStruct := fl.Type().Underlying().(*types.Struct); isStruct {
@@ -394,17 +476,19 @@ func (f *frame) applyContract(con *Contract, key string, args []Val, rt *types.T
 				hv := g.fresh("freshfld")
 				g.declare(hv, s)
 				g.assumeUnder(st.reach, g.typeInv(hv, fl.Type()))
-				g.assignArr(st.heap, an, s, fmt.Sprintf("(store %s %s %s)", a, ref, hv))
+				g.assignArr(st.heap, an, s, fmt.Sprintf("(store %s %s (ite %s %s (select %s %s)))", a, ref, fcond, hv, a, ref))
 			}
-			for _, gf := range g.W.db.Ghosts {
-				if gf.Owner == tn {
-					s := sortOf(g.W.mustType(gf.Type))
-					an := "G!" + tn + "!" + gf.Name
-					a := g.arr(st.heap, an, s)
-					hv := g.fresh("freshgh")
-					g.declare(hv, s)
-					g.assignArr(st.heap, an, s, fmt.Sprintf("(store %s %s %s)", a, ref, hv))
-				}
+		} else {
+			tn = g.W.typeName(v.Ty)
+		}
+		for _, gf := range g.W.db.Ghosts {
+			if gf.Owner == tn {
+				s := sortOf(g.W.mustType(gf.Type))
+				an := "G!" + tn + "!" + gf.Name
+				a := g.arr(st.heap, an, s)
+				hv := g.fresh("freshgh")
+				g.declare(hv, s)
+				g.assignArr(st.heap, an, s, fmt.Sprintf("(store %s %s (ite %s %s (select %s %s)))", a, ref, fcond, hv, a, ref))
 			}
 		}
 	}
@@ -524,6 +608,7 @@ func (f *frame) builtin(c *ssa.CallCommon, name string, args []Val, st *State, p
 			srcAt = fmt.Sprintf("(select (select %s (s-arr %s)) (+ (s-off %s) (- k (s-off %s))))", a, src.T, src.T, dst.T)
 		}
 		g.assumeUnder(st.reach, fmt.Sprintf("(forall ((k Int)) (! (= (select %[1]s k) (ite (and (<= (s-off %[2]s) k) (< k (+ (s-off %[2]s) %[3]s))) %[4]s (select (select %[5]s (s-arr %[2]s)) k))) :pattern ((select %[1]s k))))", na, dst.T, n, srcAt, a))
+		g.noteWrite(an, "(s-arr "+dst.T+")")
 		g.assignArr(st.heap, an, es, fmt.Sprintf("(store %s (s-arr %s) %s)", a, dst.T, na))
 		return Val{T: n, Ty: tyInt}
 	case "delete":
@@ -533,6 +618,8 @@ func (f *frame) builtin(c *ssa.CallCommon, name string, args []Val, st *State, p
 		hs := "(Array " + ks + " Bool)"
 		ha := g.arr(st.heap, has, hs)
 		ml := g.arr(st.heap, "G!map!len", "Int")
+		g.noteWrite(has, m.T)
+		g.noteWrite("G!map!len", m.T)
 		g.assignArr(st.heap, "G!map!len", "Int", fmt.Sprintf("(store %[1]s %[2]s (ite (select (select %[3]s %[2]s) %[4]s) (- (select %[1]s %[2]s) 1) (select %[1]s %[2]s)))", ml, m.T, ha, k.T))
 		g.assignArr(st.heap, has, hs, fmt.Sprintf("(store %[1]s %[2]s (store (select %[1]s %[2]s) %[3]s false))", ha, m.T, k.T))
 		return Val{Ty: rt}
@@ -540,6 +627,7 @@ func (f *frame) builtin(c *ssa.CallCommon, name string, args []Val, st *State, p
 		ch := args[0]
 		cl := g.arr(st.heap, "G!chan!closed", "Bool")
 		f.safety("closeclosed", st, fmt.Sprintf("(and (not (= %s 0)) (not (select %s %s)))", ch.T, cl, ch.T), pos, "close of nil or closed channel")
+		g.noteWrite("G!chan!closed", ch.T)
 		g.assignArr(st.heap, "G!chan!closed", "Bool", fmt.Sprintf("(store %s %s true)", cl, ch.T))
 		return Val{Ty: rt}
 	case "recover":
@@ -591,6 +679,10 @@ func (f *frame) appendOp(c *ssa.CallCommon, args []Val, st *State, pos token.Pos
 	}
 	oldAt := fmt.Sprintf("(select (select %s (s-arr %s)) (+ (s-off %s) (- k (s-off %s))))", a, base.T, base.T, n)
 	g.assumeUnder(st.reach, fmt.Sprintf("(forall ((k Int)) (! (= (select %[1]s k) (ite (and (<= (s-off %[2]s) k) (< k (+ (s-off %[2]s) (s-len %[3]s)))) %[4]s (ite (and (<= (+ (s-off %[2]s) (s-len %[3]s)) k) (< k (+ (s-off %[2]s) (s-len %[2]s)))) %[5]s (select (select %[6]s (s-arr %[2]s)) k)))) :pattern ((select %[1]s k))))", na, n, base.T, oldAt, moreAt, a))
+	if g.isFresh(base.T) {
+		g.markFresh(n)
+	}
+	g.noteWrite(an, "(s-arr "+n+")")
 	g.assignArr(st.heap, an, es, fmt.Sprintf("(store %s (s-arr %s) %s)", a, n, na))
 	return Val{T: n, Ty: base.Ty}
 }
@@ -849,8 +941,19 @@ func (g *Gen) contractWrites(con *Contract, c *ssa.CallCommon, ws map[string]str
 	}
 	defer func() { g.errs = append(g.errs, keepErrs...) }()
 	for _, fr := range con.Fresh {
+		if i := strings.Index(fr, " if "); i >= 0 {
+			fr = strings.TrimSpace(fr[:i])
+		}
 		ws["alloc"] = "Bool"
 		if v, ok := env.vars[fr]; ok {
+			if stt, _ := g.structOf(v.Ty); stt == nil {
+				tn := g.W.typeName(v.Ty)
+				for _, gf := range g.W.db.Ghosts {
+					if gf.Owner == tn {
+						ws["G!"+tn+"!"+gf.Name] = sortOf(g.W.mustType(gf.Type))
+					}
+				}
+			}
 			if stt, bt := g.structOf(v.Ty); stt != nil {
 				tn := g.W.typeName(bt)
 				for i := 0; i < stt.NumFields(); i++ {
